@@ -42,9 +42,14 @@ package jet
 //@   nopanic
 //@ func (*NodeBase).errorf
 //@   props C12
+//@   requires node != nil
 //@   noreturn
+//@   callsite fmt.Errorf 0 requires [runtime-errors-name-file-and-line] {C12} format == "Jet Runtime Error (%q:%d): %s" && len(a) == 3 && a[1] == iface(node.Line, "int") && a[0] == iface(lastret("filepath.ToSlash", 0), "string")
+//@   callsite filepath.ToSlash 0 requires [runtime-errors-name-the-template-of-the-node] {C12} path == node.TemplatePath
+//@   callsite fmt.Errorf count 1
 //@ func (*NodeBase).error
 //@   props C12
+//@   requires node != nil
 //@   noreturn
 
 // ---- user-supplied callees ---------------------------------------------------------------------------
@@ -121,6 +126,10 @@ package jet
 //@   requires st != nil
 //@   nopanic
 //@   loop 0 invariant st != nil
+//@   loop 0 invariant [at-the-innermost-scope] st == old(st) ==> has == has(st.blocks, name) && (has ==> block == st.blocks[name])
+//@   loop 0 invariant [moved-on-only-when-absent] st != old(st) ==> !has(old(st.blocks), name) && old(st.parent) != nil
+//@   loop 0 invariant [at-the-second-scope] st != old(st) && st == old(st.parent) ==> has == has(st.blocks, name) && (has ==> block == st.blocks[name])
+//@   loop 0 invariant [beyond-the-second-scope] st != old(st) && st != old(st.parent) ==> !has(old(st.parent.blocks), name)
 //@   ensures [innermost-scope-wins] has(old(st.blocks), name) ==> has == true && block == old(st.blocks)[name]
 //@   ensures [second-scope-next] !has(old(st.blocks), name) && old(st.parent) != nil && has(old(st.parent.blocks), name) ==> has == true && block == old(st.parent.blocks)[name]
 //@   ensures [no-scope-no-block] !has(old(st.blocks), name) && old(st.parent) == nil ==> has == false
@@ -750,3 +759,25 @@ package jet
 //@ func (*Arguments).Panicf
 //@   props C14
 //@   noreturn
+
+// map(k1, v1, ...): keys are converted to string, each pair is stored once
+//@ func init$2
+//@   props C14 C12
+//@   requires RtOK(a.runtime) && WFArgs(a.args)
+//@   modifies @Interp
+//@   anypanic
+//@   exsures RtX(a.runtime)
+//@   loop 0 invariant RtOK(a.runtime) && 0 <= i
+//@   callsite (reflect.Value).SetMapIndex 0 requires [map-stores-under-the-converted-key] {C14} key == lastret("(reflect.Value).Convert", 0) && elem == lastret("(*Arguments).Get", 0)
+//@   callsite (*Arguments).Get 0 requires [map-keys-are-the-even-arguments] {C14} argumentIndex == caller.i
+//@   callsite (*Arguments).Get 1 requires [map-values-follow-their-keys] {C14} argumentIndex == caller.i + 1
+//@   callsite (*Arguments).Get count 2
+// slice(x1, ...)
+//@ func init$3
+//@   props C14 C12
+//@   requires RtOK(a.runtime) && WFArgs(a.args)
+//@   modifies @Interp
+//@   anypanic
+//@   exsures RtX(a.runtime)
+//@   loop 0 invariant RtOK(a.runtime) && 0 <= i && len(arr) == lastret("(*Arguments).NumOfArguments", 0) && fresh(arr)
+//@   callsite (*Arguments).Get 0 requires [slice-elements-are-the-arguments-in-order] {C14} argumentIndex == caller.i
